@@ -27,6 +27,7 @@ from modelx.core.model import Model
 from modelx.core.base import Interface
 from modelx.core.util import (
     abs_to_rel, rel_to_abs, abs_to_rel_tuple, rel_to_abs_tuple)
+from modelx.core.formula import quote_docstring
 import asttokens
 from . import ziputil
 from .custom_pickle import (
@@ -438,7 +439,7 @@ class ModelEncoder(BaseEncoder):
     def encode(self):
         lines = []
         if self.model.doc is not None:
-            lines.append("\"\"\"" + self.model.doc + "\"\"\"")
+            lines.append(quote_docstring(self.model.doc))
 
         lines.append("from modelx.serialize.jsonvalues import *")
         lines.append("_name = \"%s\"" % self.model.name)
@@ -496,7 +497,7 @@ class SpaceEncoder(BaseEncoder):
 
         lines = []
         if self.space.doc is not None:
-            lines.append("\"\"\"" + self.space.doc + "\"\"\"")
+            lines.append(quote_docstring(self.space.doc))
 
         lines.append("from modelx.serialize.jsonvalues import *")
 
@@ -640,7 +641,7 @@ class CellsEncoder(BaseEncoder):
             if self.target.formula.source[:6] == "lambda":
                 line = self.target.name + " = " + self.target.formula.source
                 if self.target.doc:
-                    line += "\n" + ("\"\"\"%s\"\"\"" % self.target.doc)
+                    line += "\n" + quote_docstring(self.target.doc)
                 lines.append(line)
             else:
                 lines.append(self.target.formula.source)
